@@ -324,6 +324,29 @@ struct World
 	bool any_hostile = false;
 	std::uint64_t keyseq = 1;
 	std::uint64_t udp_from_unknown_relay = 0;
+	std::unique_ptr<ip::udp::socket> stray; // a third party (node H) sending datagrams at relay ports
+
+	// datagrams from a host that is no party to any association, aimed at the ports the proxy hands out
+	void add_strays(int n)
+	{
+		error_code ec;
+		stray.reset(new ip::udp::socket(*nh));
+		API(stray->open(ip::udp::v4(), ec));
+		API(stray->bind(ip::udp::endpoint(H, 6000), ec));
+		API(stray->non_blocking(true, ec));
+		for (int i = 0; i < n; ++i)
+		{
+			Bytes d(std::size_t(rng.range(1, 60)));
+			for (auto& x : d) x = std::uint8_t(rng.choose(256));
+			unsigned const port = unsigned(2048 + rng.choose(3));
+			static std::int64_t const when[] = {5000000, 40000000, 120000000, 400000000};
+			after(when[rng.choose(4)], [this, d, port]() {
+				error_code e2;
+				API(stray->send_to(asio::buffer(d.data(), d.size()), ip::udp::endpoint(P, std::uint16_t(port)), 0, e2));
+				R().count("third_party_datagrams_sent");
+			});
+		}
+	}
 
 	World(Args const& a_, Rng& r) : a(a_), rng(r)
 	{
@@ -393,7 +416,7 @@ struct World
 		runner.reset();
 		timers.clear();
 		good.clear(); hostile.reset(); sink.reset();
-		ut[0].s.reset(); ut[1].s.reset();
+		ut[0].s.reset(); ut[1].s.reset(); stray.reset();
 		proxy.reset();
 		nc.reset(); np.reset(); nt.reset(); nu.reset(); nh.reset();
 		sim.reset();
@@ -873,6 +896,7 @@ void Session::final_check()
 			pass = false;
 		}
 		if (!missing && !rmissing) R().count("udp_sessions_completed");
+		R().count("third_party_datagrams_relayed_to_client", third_party);
 	}
 	if (pass && w.any_hostile) R().count("good_sessions_next_to_hostile_passed");
 	if (pass) R().count("good_sessions_passed");
@@ -1291,7 +1315,14 @@ void case_valid(Args const& a, std::uint64_t c, Rng& rng)
 	w.build();
 	int const n = 1 + (rng.coin(1, 3) ? rng.choose(3) : 0);
 	std::set<int> deferred;
-	for (int i = 0; i < n; ++i) { Session* s = gen_good(w, o); if (i > 0 && rng.coin(1, 4)) deferred.insert(s->id); }
+	bool any_udp = false;
+	for (int i = 0; i < n; ++i)
+	{
+		Session* s = gen_good(w, o);
+		if (i > 0 && rng.coin(1, 4)) deferred.insert(s->id);
+		any_udp = any_udp || s->kind == K_UDP;
+	}
+	if (any_udp && rng.coin(1, 3)) { w.add_strays(1 + rng.choose(3)); w.desc += "(+third-party datagrams) "; }
 	(void)c;
 	run_world(w, deferred);
 }
@@ -1535,6 +1566,7 @@ void case_random(Args const& a, std::uint64_t c, Rng& rng)
 		w.desc += " | udp-hostile";
 		gen_hostile_udp(w, raws, "random datagrams");
 		R().count("hostile_udp_random");
+		if (rng.coin()) w.add_strays(1 + rng.choose(4));
 	}
 	else
 	{
